@@ -100,7 +100,7 @@ def wl_roundtrip(ctx, idx, rng):
     axis_kind = (idx // 6) % 3          # 0: time, 1: time (other spelling/pattern), 2: freq (radio only)
     nchan = int(gen.pick(rng, [1, 2, 3, 4, 5, 6, 8, 9]))
     align = ["bottom", "center", "top"][(idx // 18) % 3]
-    n = int(gen.pick(rng, [0, 1, 2, 3, 5, 8, 16, 33, 64]))
+    n = int(gen.pick(rng, [0, 1, 2, 3, 5, 8, 16, 33, 64, 400]))
     use_dask = rng.random() < 0.15
     kw = {}
     if clsname != "Signal":
@@ -112,6 +112,19 @@ def wl_roundtrip(ctx, idx, rng):
         cuts = [int(c) for c in rng.integers(0, nchan + 1, size=int(rng.integers(1, 4)))]
         with probes.quiet():
             ps = pieces_by_freq(sig, cuts)
+            r_ = rng.random()
+            if r_ < 0.15:
+                ps = [sig]          # no cut point at all: the signal itself (whatever its alignment) is the only piece
+            elif r_ < 0.45:
+                # the same sub-bands described the way a reader delivers them: even-width pieces labelled 'bottom' / 'top'
+                # (center_freq moved by half a channel so that every channel label stays what it was)
+                def redescribe(p_):
+                    if p_.shape[1] % 2:
+                        return p_
+                    al = gen.pick(rng, ["bottom", "top", "center"])
+                    sh = {"bottom": 0.5, "top": -0.5, "center": 0.0}[al] - {"bottom": 0.5, "top": -0.5, "center": 0.0}[p_.freq_align]
+                    return type(p_).like(p_, freq_align=al, center_freq=p_.center_freq + sh * p_.chan_bw)
+                ps = [redescribe(p_) for p_ in ps]
         axis = gen.pick(rng, [1, "freq"])
         feats = {"axis": "freq", "cls": clsname}
         pat = "freq"
@@ -122,6 +135,8 @@ def wl_roundtrip(ctx, idx, rng):
         cuts = [int(c) for c in rng.integers(0, n + 1, size=ncut)]
         if rng.random() < 0.3:
             cuts += [0, n][:int(rng.integers(0, 3))]
+        if n >= 33 and rng.random() < 0.25:
+            cuts = list(range(1, n))        # one piece per sample: dozens of stamped pieces (a long observation read block by block)
         with probes.quiet():
             ps = pieces_by_time(sig, cuts)
         axis = gen.pick(rng, [0, "time"])
